@@ -64,10 +64,10 @@ def input_names(f, opts):
     if f.get('aliases') is not None:
         al = f['aliases']
         al = (al,) if isinstance(al, str) else tuple(al)
-        firm = tuple(dict.fromkeys((*base, *al)))
-        # whether the Python name itself stays accepted next to a class-level in_rename is not documented
-        unspec = (name,) if name not in firm else ()
-        return firm, unspec
+        # field() docstring: aliases are additional names and "include the field name inside Python (unlike in_names)" - also next
+        # to a class-level rename style
+        firm = tuple(dict.fromkeys((*base, name, *al)))
+        return firm, ()
     unspec = (name,) if name not in base else ()
     return base, unspec
 
